@@ -87,7 +87,7 @@ def check(F, rep, tier):
                 src = st[2][2][1]
                 for b2, s2, st2 in f.stmts():
                     if st2[0] == "=" and st2[1] == src and st2[2][0] == "use" and st2[2][1][0] in ("cp", "mv") and len(st2[2][1][1]) == 1: cnt = st2[2][1][1][0]
-        if cnt is None: rep.bad("R06.2", "unrecognised-shape:slot-counter", "the count < 3 test's counter local was not found", f.where())
+        if cnt is None: rep.undecided("R06.2", "unrecognised-shape:slot-counter", "the count < 3 test's counter local was not found", f.where())
         else:
             writes = []
             for bi, si, st in f.stmts():
